@@ -2,7 +2,7 @@
 import ast
 
 from ..astutil import U, dotted, walk_local, is_self_attr, call_name, short, enum_member, get_class, methods, classes
-from ..cfg import CFG
+from ..cfg import CFG, calls_at
 from ..dataflow import ReachingDefs, node_of_expr
 from ..guards import handler_catches
 from ..engmodel import ENGINE, CRYPTO, POLICY
@@ -97,10 +97,24 @@ def string_leaves(hg, hrd, node, expr, depth=0, seen=None):
         seen.add((expr.id, node.id))
         out = []
         for _var, val, dn in hrd.reaching(node, expr.id):
-            if not isinstance(val, ast.AST) or dn is None:
+            if isinstance(val, tuple) and val[0] == 'iter' and dn is not None and isinstance(val[1], ast.AST):
+                # an element of a collection: classified like the collection it iterates over
+                out += string_leaves(hg, hrd, dn, val[1], depth + 1, seen)
+            elif not isinstance(val, ast.AST) or dn is None:
                 out.append(('unknown', '%s (parameter or opaque definition)' % expr.id))
             else:
                 out += string_leaves(hg, hrd, dn, val, depth + 1, seen)
+        # a list that is filled by append(...) (a comprehension written as a loop): its elements count too
+        for n2 in hg.nodes:
+            for c2 in calls_at(n2):
+                if isinstance(c2.func, ast.Attribute) and c2.func.attr in ('append', 'insert') and isinstance(c2.func.value, ast.Name) and c2.func.value.id == expr.id and c2.args:
+                    a2 = c2.args[-1]
+                    if isinstance(a2, ast.Attribute) and a2.attr == 'unique_identifier' and not (isinstance(a2.value, ast.Name) and a2.value.id == 'payload'):
+                        out.append(('bad', U(a2)))
+                    elif isinstance(a2, ast.Call) and call_name(a2) == 'str':
+                        out.append(('ok', U(a2)))
+                    else:
+                        out += string_leaves(hg, hrd, n2, a2, depth + 1, seen)
         return out or [('unknown', '%s (no definition)' % expr.id)]
     if isinstance(expr, ast.IfExp):
         return string_leaves(hg, hrd, node, expr.body, depth, seen) + string_leaves(hg, hrd, node, expr.orelse, depth, seen)
